@@ -609,6 +609,99 @@ theorem validate_example :
       = .ok (.ok (some ["from".toList, "command".toList, "no-pty".toList]), .ok (some 0), .ok none) := by
   decide +kernel
 
+/-! ### a line ends at a newline only; option names are case-insensitive -/
+
+theorem splitAt_no_break (brk : Char → Bool) (s : Str) (h : ∀ c ∈ s, brk c = false) : splitAt brk s = [s] := by
+  induction s with
+  | nil => rfl
+  | cons c s ih =>
+    have hc : brk c = false := h c (by simp)
+    have hs : splitAt brk s = [s] := ih (fun d hd => h d (by simp [hd]))
+    simp [splitAt, hc, hs]
+
+/-- OpenSSH file-format rule "one entry per line, a line ends at `\n`" (fix "split ... at newline only"), for
+    EVERY text: a text without a newline is one line for the loaders, whatever other characters it holds (form
+    feed, vertical tab, FS/GS/RS, NEL, U+2028/9 in a key comment).  Stated about the split selected by
+    `Gen.C17.lineSplitNewlineOnly`, so it stops checking on a tree that cuts its text with `str.splitlines()`. -/
+theorem lines_end_at_newline_only (s : Str) (h : '\n' ∉ s) : splitLines s = [s] := by
+  apply splitAt_no_break
+  intro c hc
+  have : c ≠ '\n' := fun e => h (e ▸ hc)
+  simp [isLineBreak, Gen.C17.lineSplitNewlineOnly, this]
+
+/-- consequence for both loaders: a text without a newline contributes what its single line contributes
+    (nothing after a line-break look-alike inside a comment becomes an entry of its own) -/
+theorem load_one_line (x509 : Bool) (imp : Importer) (s : Str) (h : '\n' ∉ s) :
+    KnownHosts.load x509 imp s = loadLines x509 imp [s] := by
+  simp [KnownHosts.load, lines_end_at_newline_only s h]
+
+theorem ak_load_one_line (x509 : Bool) (imp : AKImporter) (s : Str) (h : '\n' ∉ s) :
+    AuthKeys.loadLines x509 imp (splitLines s) = AuthKeys.loadLines x509 imp [s] := by
+  rw [lines_end_at_newline_only s h]
+
+/-- witness of the behaviour before the fix: with `str.splitlines()` the one-line text `h K c<FF>* E` (a key
+    with the comment `c<FF>* E`) was two lines, the second one a `*` host line; now it is one line -/
+theorem splitlines_comment_injection_witness :
+    splitLinesPreFix "h K c\x0c* E".toList = ["h K c".toList, "* E".toList] ∧
+    splitLines "h K c\x0c* E".toList = ["h K c\x0c* E".toList] ∧
+    splitLinesPreFix "h K c * E".toList = ["h K c".toList, "* E".toList] := by
+  decide +kernel
+
+theorem splitEq_append (n v : Str) (h : '=' ∉ n) : splitEq (n ++ '=' :: v) = (n, v) := by
+  induction n with
+  | nil => simp [splitEq]
+  | cons c n ih =>
+    have hc : c ≠ '=' := fun e => h (by simp [e])
+    have hn : '=' ∉ n := fun hm => h (by simp [hm])
+    simp [splitEq, hc, ih hn]
+
+/-- OpenSSH compares option names without regard to case (fix "match authorized_keys option names
+    case-insensitively"): for EVERY option store, value and two spellings of a name that fold to the same
+    lower-case text, `name=value` has the same effect under either spelling. -/
+theorem option_name_case_insensitive (x509 : Bool) (o : Opts) (n1 n2 v : Str) (h1 : '=' ∉ n1) (h2 : '=' ∉ n2)
+    (hfold : lowerName n1 = lowerName n2) :
+    addOption x509 o (n1 ++ '=' :: v) = addOption x509 o (n2 ++ '=' :: v) := by
+  have hnil : n1 = [] ↔ n2 = [] := by
+    have hl : n1.length = n2.length := by
+      have := congrArg List.length hfold
+      simpa [lowerName] using this
+    constructor
+    · intro e; rw [e] at hl; exact List.eq_nil_of_length_eq_zero hl.symm
+    · intro e; rw [e] at hl; exact List.eq_nil_of_length_eq_zero hl
+  have hf : foldName n1 = foldName n2 := by simp [foldName, Gen.C17.optNamesFolded, hfold]
+  have hhead : ∀ n : Str, '=' ∉ n → ((n ++ '=' :: v).head? = some '=' ↔ n = []) := by
+    intro n hn
+    cases n with
+    | nil => simp
+    | cons c n => simp; exact fun e => hn (by simp [e])
+  have hcont : ∀ n : Str, (n ++ '=' :: v).contains '=' = true := by intro n; simp
+  unfold addOption addOptionWith
+  simp only [hhead n1 h1, hhead n2 h2, hcont, splitEq_append _ _ h1, splitEq_append _ _ h2, hf, hnil, if_true]
+
+/-- the same for an option without a value (`No-Pty`, `RESTRICT`, `Cert-Authority`) -/
+theorem option_flag_case_insensitive (x509 : Bool) (o : Opts) (n1 n2 : Str) (h1 : '=' ∉ n1) (h2 : '=' ∉ n2)
+    (hfold : lowerName n1 = lowerName n2) :
+    addOption x509 o n1 = addOption x509 o n2 := by
+  have hf : foldName n1 = foldName n2 := by simp [foldName, Gen.C17.optNamesFolded, hfold]
+  have hhead : ∀ n : Str, '=' ∉ n → ¬ n.head? = some '=' := by
+    intro n hn e
+    cases n with
+    | nil => simp at e
+    | cons c n => simp at e; exact hn (by simp [e])
+  have hcont : ∀ n : Str, '=' ∉ n → n.contains '=' = false := by intro n hn; simpa using hn
+  unfold addOption addOptionWith
+  rw [if_neg (hhead n1 h1), if_neg (hhead n2 h2), hcont n1 h1, hcont n2 h2]
+  simp [hf]
+
+/-- witness of the behaviour before the fix: `From="10.0.0.0/8"` and `No-Pty` missed their handlers and were
+    stored under names nothing looks up (the restriction was not enforced); now they reach `from` / `no-pty` -/
+theorem option_name_case_prefix_witness :
+    (addOptionPreFix false [] "From=10.0.0.0/8".toList).map (fun o => (optGet o "from".toList).isSome) = .ok false ∧
+    (addOption false [] "From=10.0.0.0/8".toList).map (fun o => (optGet o "from".toList).isSome) = .ok true ∧
+    (addOptionPreFix false [] "No-Pty".toList).map (fun o => (optGet o "no-pty".toList).isSome) = .ok false ∧
+    (addOption false [] "No-Pty".toList).map (fun o => (optGet o "no-pty".toList).isSome) = .ok true := by
+  decide +kernel
+
 /-- importer, HMAC stand-in and file of `lookup_example` -/
 def exImp : Importer :=
   { key := fun d => if d = "K1".toList then .ok 1 else if d = "K2".toList then .ok 2 else .importError,
